@@ -33,7 +33,26 @@ def bind_repo():
     import dagrt
     assert os.path.abspath(dagrt.__file__).startswith(os.path.abspath(REPO) + os.sep), \
         (dagrt.__file__, REPO)
+    own_uninitialised_memory()
     return dagrt
+
+
+def own_uninitialised_memory():
+    """<builtin>array(n) is numpy.empty: uninitialised memory would be a source of nondeterminism the explorer does
+    not own (a schedule that reads a cell before it is written would see garbage that differs from run to run).
+    Every float/complex array handed out by numpy.empty is filled with NaN instead."""
+    import numpy as np
+    if getattr(np.empty, "_verif_owned", False):
+        return
+    orig = np.empty
+
+    def empty(*a, **k):
+        r = orig(*a, **k)
+        if r.dtype.kind in "fc":
+            r.fill(np.nan)
+        return r
+    empty._verif_owned = True
+    np.empty = empty
 
 
 def h64(obj):
